@@ -199,6 +199,15 @@ def main():
              "serves_properties": sorted(CLAIMED),
              "kind_free_text": "per-property driver: rebuild, recompile theorem files, regenerate tables from /repo, run "
                                "vm_compute correspondence cases, witness search, evidence"},
+            {"name": "translators", "path": "/verif/tools/tr_pgns.py",
+             "serves_properties": [p for p in ("C01", "C02", "C07", "C08", "C09", "C10", "C11", "C16", "C17") if p in CLAIMED],
+             "kind_free_text": "fail-closed Python-ast translator of nmea2000/pgns.py (decoders, encoders, dispatchers, fast table, "
+                               "lookup dictionaries) and tr_db.py (canboat.json) into Coq tables, regenerated on every run; the "
+                               "per-run obligation modules tools/templates/Obl*.v are kernel-checked against them"},
+            {"name": "virtual-loop", "path": "/verif/tools/vloop.py",
+             "serves_properties": [p for p in ("C12", "C13", "C14", "C19") if p in CLAIMED],
+             "kind_free_text": "virtual-time asyncio event loop, fake transports and method wrappers (vloop.py, vloop_rxs.py) that "
+                               "turn sessions of the four real client classes into labelled traces for the Coq acceptors"},
         ],
         "checks": checks,
         "not_applicable": [{"property_id": p, "reason": PENDING_REASON} for p in ALL if p not in CLAIMED],
